@@ -218,6 +218,52 @@ pub fn oracle(args: &Args) {
                 made += 1;
             }
         }
+        // sessions --n N --seed S: one game per session, presented as a GUI does during play: the same
+        // root with growing (sometimes shrinking or repeated) move-list prefixes, each with its expectation
+        "sessions" => {
+            let n = args.u64("--n", 50);
+            let seed = args.u64("--seed", 1);
+            let roots = gen::corpus_roots();
+            let mut rng = Rng::new(seed, 780);
+            for sid in 0..n {
+                let from_start = rng.chance(2, 3);
+                let root = if from_start { Pos::start() } else { rng.pick(&roots).clone() };
+                let mut line: Vec<(String, Pos)> = vec![];
+                let mut p = root.clone();
+                for _ in 0..(6 + rng.below(40)) {
+                    let legal = p.legal_moves();
+                    if legal.is_empty() {
+                        break;
+                    }
+                    let m = gen::pick_move(&p, &legal, &mut rng);
+                    p = p.make(m);
+                    line.push((m.uci(), p.clone()));
+                }
+                let mut k = 0usize;
+                let steps = 4 + rng.below(10);
+                for _ in 0..steps {
+                    k = match rng.below(8) {
+                        0 => k,                                          // the same command again
+                        1 => k.saturating_sub(1 + rng.below(3) as usize), // a take-back
+                        _ => (k + 1 + rng.below(3) as usize).min(line.len()),
+                    };
+                    let pos = if k == 0 { root.clone() } else { line[k - 1].1.clone() };
+                    let moves: Vec<String> = line[..k].iter().map(|x| x.0.clone()).collect();
+                    let mut replies: Vec<String> = pos.legal_moves().iter().map(|m| m.uci()).collect();
+                    replies.sort();
+                    println!(
+                        "step\t{}\t{}\t{}\t{}\t{}\t{}\t{}",
+                        sid,
+                        if from_start { "startpos".to_string() } else { root.to_fen(EpConv::Always) },
+                        moves.join(" "),
+                        pos.to_fen(EpConv::Always),
+                        pos.to_fen(EpConv::Adjacent),
+                        pos.to_fen(EpConv::Legal),
+                        replies.join(" ")
+                    );
+                }
+            }
+        }
         // positions --n N --seed S: non-terminal legal positions (root + moves) with their legal moves
         "positions" => {
             let n = args.u64("--n", 100);
